@@ -35,7 +35,8 @@ def model_checks(tier):
     return [dict(module='mc/MC_DecodeHistory', cfg='mc/MC_DecodeHistory_repaired', must_cover=['Decode'], workers=8)]
 
 
-BEHS = ['ok', 'ok_lead0', 'ok_letters', 'nondict', 'none', 'raise', 'raise_empty', 'importerror', 'absent']
+BEHS = ['ok', 'ok_lead0', 'ok_letters', 'nondict', 'none', 'raise', 'raise_empty', 'importerror', 'importfails',
+        'importfails', 'absent']
 
 
 def cases(tier, seed, info):
@@ -47,7 +48,7 @@ def cases(tier, seed, info):
             for beh in BEHS + ['prog0', 'prog1', 'prog2', 'prog3', 'prog4', 'prog5', 'builtin', 'shipped_e500', 'shipped_2c00']:
                 for plugins in (True, False):
                     items.append(dict(t='ud', kind=kind, beh=beh, plugins=plugins, k=rep))
-        for creator in ('X', 'Y', 'O', 'B', 'Q'):
+        for creator in ('X', 'Y', 'O', 'B', 'Q', 'Z'):
             for ref in ('BD', 'BC', '11', 'ZZ'):
                 for beh in ('0', '1', '2', '3', '4', '5'):
                     for plugins in (True, False):
@@ -59,7 +60,7 @@ def cases(tier, seed, info):
             for ver in (1, 2, 0, 3):
                 for L in (0, 1, 8, 24, 40, 100):
                     items.append(dict(t='m2c00', sub=sub, ver=ver, L=L, k=rep))
-        for creator in ('X', 'O', 'B'):
+        for creator in ('X', 'O', 'B', 'Z'):
             for proc in ('FIX0001', 'FIXBOOM', 'FIXEMPT', 'FIXJUNK', 'BMC0001', 'BMC0008', 'NOSUCH1',
                          'FIXB%03d' % ((rep * 7 + 1) % 24), 'FIXB%03d' % ((rep * 7 + 4) % 24), 'FIXB%03d' % ((rep * 7 + 6) % 24)):
                 for plugins in (True, False):
@@ -76,6 +77,8 @@ def _ud(rng, it):
     real_beh = beh
     if beh in udrun.FIXTURE_COMPS:
         comp = udrun.FIXTURE_COMPS[beh]
+        if beh == 'importfails':
+            comp = list(rng.choice(udrun.BROKEN_COMPS))
         real_beh = 'ok' if beh.startswith('ok') else beh
     elif beh == 'absent':
         comp, fixture = [0x7A, 0x7A], False
@@ -144,7 +147,8 @@ def _src(rng, it):
     seams.install_fixture_plugins()
     log = seams.install_import_recorder()
     creator = it['creator']
-    comp2 = {'X': 'AA', 'Y': 'AA', 'O': rng.choice(['AA', 'BB', 'CC', 'E5']), 'B': 'AA', 'Q': 'AA'}[creator]
+    comp2 = {'X': 'AA', 'Y': 'AA', 'O': rng.choice(['AA', 'BB', 'CC', 'E5', 'DD']), 'B': 'AA', 'Q': 'AA',
+             'Z': 'AA'}[creator]
     ref = it['ref'] + '8D' + comp2 + '10' if it['ref'] != 'ZZ' else 'ZZ12' + comp2 + '10'
     s = genpel.gen_src(rng, 'PS', ncallouts=-1)
     s['ascii'] = encode.text(ref + rng.choice(['', '        ABCD']), 32, 0x20)
@@ -157,6 +161,8 @@ def _src(rng, it):
     target = None
     if creator in ('X', 'Y'):
         target = creator.lower() + 'src'
+    elif creator == 'Z':
+        target, beh = 'zsrc', 'importfails'       # exists, fails while being loaded
     elif creator == 'B':
         target = 'bsrc'
     elif creator == 'O':
@@ -168,6 +174,8 @@ def _src(rng, it):
             target, beh = 'obb00', 'raise'
         elif comp2 == 'E5':
             target, beh = 'oe500', 'ok'
+        elif comp2 == 'DD':
+            target, beh = 'odd00', 'importfails'
     if target is None:
         beh = 'absent'
     seams.clear_plugin_caches(unload=True)
@@ -179,7 +187,7 @@ def _src(rng, it):
     imports = [n for n in log if n.split('.')[0] == 'srcparsers']
     calls = [dict(name=c[1], refcode=project.cp(c[2]), words=[project.cp(w) for w in c[3]])
              for c in verif_fixture.CALLS if c[0] == 'src']
-    fixture_target = target in ('xsrc', 'ysrc', 'oaa00', 'obb00', 'bsrc')
+    fixture_target = target in ('xsrc', 'ysrc', 'oaa00', 'obb00', 'bsrc', 'zsrc', 'odd00')
     rec = dict(family='C18', kind='src', shape_ok=res['doc'] is not None, creator=ord(creator), ascii=s['ascii'],
                words=s['words'], wc=s['wc'], plugins=it['plugins'],
                beh=beh if fixture_target else ('absent' if beh == 'absent' else 'shipped'),
@@ -302,7 +310,7 @@ def _callout(rng, it):
     seams.install_fixture_plugins()
     log = seams.install_import_recorder()
     creator = it['creator']
-    known = {'X': {'FIX0001'}, 'O': {'BMC0001', 'BMC0008'}, 'B': set()}[creator]
+    known = {'X': {'FIX0001'}, 'O': {'BMC0001', 'BMC0008'}, 'B': set(), 'Z': set()}[creator]
     shapes = [dict(fru='m', pce=None, mru=None, loc=4), dict(fru='p', pce=None, mru=None, loc=0)]
     s = genpel.gen_src(rng, 'PS', ncallouts=2, shapes=shapes)
     s['callouts']['list'][0]['fru']['pn'] = encode.text(it['proc'], 8)
